@@ -45,8 +45,17 @@ KEY_D25 = "Split:first-advanced-output-abandoned"
 
 
 # ---------------- case construction -----------------------------------------------------------
+RAW_OK = ("pp", "pfe", "worker", "map", "itmap", "genpar", "itgen")
+_raw_rng = __import__("random").Random(20260928)
+
+
 def mk(construct, workers, buf, inp, cons, seed, procs):
-    return C.sx(["pipe", ["construct", construct], ["workers", workers], ["buf", buf], ["input"] + list(inp),
+    extra = []
+    if construct in RAW_OK and workers == 1 and seed and seed % 7 == 0:
+        # every seventh single-worker case installs the count through WorkerGroupConfSet with a value
+        # below 1 ("all worker counts": such values are documented to become 1); model and oracle see 1
+        extra = [["rawworkers", -(seed % 3)]]
+    return C.sx(["pipe", ["construct", construct], ["workers", workers]] + extra + [["buf", buf], ["input"] + list(inp),
                  ["consumer"] + list(cons), ["seed", seed], ["procs", procs]])
 
 
